@@ -185,6 +185,7 @@ struct Plan {
     cancel: Vec<usize>,        // callers (1-based) aborted after their request was read (async / ws)
     batch: bool,
     subscribe: bool,           // ws: a notification subscriber exists
+    wt_big: bool,              // blocking client with a write timeout: a large request times out mid-frame while another call is in flight (the peer keeps the socket open)
     ser_fail: bool,            // a further call whose body fails to serialize overlaps with the calls (it must not disturb the id sequence)
     cancel_queued: bool,       // caller 1 is stuck writing a large request; caller 2, queued on the writer, is cancelled; caller 1 must still succeed
     notifies: usize,           // the client sends this many notifies before its calls: they draw ids from the same counter
@@ -201,7 +202,7 @@ fn run_plan(kind: Kind, plan: &Plan, rt: &tokio::runtime::Runtime, log: &Arc<Log
     let plan_s = plan.clone();
     let log_s = log.clone();
     let seed: u64 = rng.r#gen();
-    let go = Arc::new(std::sync::atomic::AtomicBool::new(!(plan.collide || plan.big_writer || plan.cancel_queued)));
+    let go = Arc::new(std::sync::atomic::AtomicBool::new(!(plan.collide || plan.big_writer || plan.cancel_queued || plan.wt_big)));
     let go_s = go.clone();
     let srv_thread = std::thread::spawn(move || {
         let mut r = StdRng::seed_from_u64(seed);
@@ -230,6 +231,12 @@ fn run_plan(kind: Kind, plan: &Plan, rt: &tokio::runtime::Runtime, log: &Arc<Log
         // collide / big_writer: the client side tells us when its extra step is in place
         let t0 = Instant::now();
         while !go_s.load(Ordering::SeqCst) && t0.elapsed() < Duration::from_secs(5) { std::thread::sleep(Duration::from_millis(1)); }
+        if plan_s.wt_big {
+            // read nothing more, answer nothing, keep the socket open until the client goes away (at most 8 s)
+            let t0 = Instant::now();
+            while !go_s.load(Ordering::SeqCst) && t0.elapsed() < Duration::from_secs(8) { std::thread::sleep(Duration::from_millis(5)); }
+            return;
+        }
         let mut answered: Vec<(u64, u64)> = vec![];
         let mut n_answered = 0usize;
         // closing with requests unread (or still arriving) makes the kernel reset the connection instead of shutting it
@@ -374,7 +381,7 @@ fn run_plan(kind: Kind, plan: &Plan, rt: &tokio::runtime::Runtime, log: &Arc<Log
     let timeout = plan.timeout_ms.map(Duration::from_millis);
     // a peer that sent a Close frame but holds the TCP connection open does so for 7 s here: a call that only returns
     // when the socket finally closes has, for the caller, blocked for as long as the peer pleased
-    let watchdog = if matches!(plan.fault, Some(("close_frame_open", _))) { Duration::from_secs(4) } else { Duration::from_secs(10) };
+    let watchdog = if matches!(plan.fault, Some(("close_frame_open", _))) || plan.wt_big { Duration::from_secs(4) } else { Duration::from_secs(10) };
     let do_call = |c: u64| -> Box<dyn FnOnce() -> (String, u64, u64, String) + Send> {
         let path = format!("/c{c}");
         let body = json!({"c": c});
@@ -431,6 +438,23 @@ fn run_plan(kind: Kind, plan: &Plan, rt: &tokio::runtime::Runtime, log: &Arc<Log
                 }
                 big_done = extra_step(&client, plan, rt, log, &go, from_seq);
                 if plan.ser_fail { std::thread::sleep(Duration::from_millis(30)); ser_release.store(true, Ordering::SeqCst); std::thread::sleep(Duration::from_millis(20)); }
+                if plan.wt_big {
+                    if let AnyClient::Sync(cl) = &client {
+                        // wait until the peer has read the ordinary calls, then send a request that cannot be written within the timeout
+                        let t0 = Instant::now();
+                        while log.ev.lock().unwrap().iter().filter(|(sq, e)| *sq >= from_seq && e["ev"] == "sent").count() < plan.read && t0.elapsed() < Duration::from_secs(5) { std::thread::sleep(Duration::from_millis(1)); }
+                        let _ = cl.set_write_timeout(Some(Duration::from_millis(150)));
+                        let c = plan.callers as u64 + 2;
+                        log.push(json!({"ev": "start", "c": c}));
+                        // the write below cannot complete (the peer reads nothing, the timeout is 150 ms): its interruption is
+                        // the connection's failure - the client shuts the connection down, its reader sees the end.  Logged
+                        // before the call because the other callers' errors may be reported before this call returns.
+                        log.push(json!({"ev": "wfail", "c": c}));
+                        let r = cl.call_json(&format!("/c{c}"), &json!({"c": c, "pad": "x".repeat(16 << 20)}));
+                        let (cls, rid, rtag, msg) = classify(r);
+                        log.push(json!({"ev": "ret", "c": c, "cls": cls, "rid": rid, "rtag": rtag, "msg": msg}));
+                    }
+                }
                 let t0 = Instant::now();
                 for (c, done, h) in hs {
                     while !done.load(Ordering::SeqCst) && t0.elapsed() < watchdog {
@@ -517,6 +541,7 @@ fn run_plan(kind: Kind, plan: &Plan, rt: &tokio::runtime::Runtime, log: &Arc<Log
         while !d.load(Ordering::SeqCst) && t0.elapsed() < watchdog { std::thread::sleep(Duration::from_millis(2)); }
         if !d.load(Ordering::SeqCst) { log.push(json!({"ev": "ret", "c": plan.callers as u64 + 2, "cls": "hung", "rid": 0, "rtag": 0, "msg": "no return within 10 s"})); }
     }
+    if plan.wt_big { go.store(true, Ordering::SeqCst); }
     // let a late response (after a timeout / cancel) arrive and be discarded before looking at the map
     std::thread::sleep(Duration::from_millis(if plan.timeout_ms.is_some() || !plan.cancel.is_empty() { 150 } else { 20 }));
     log.push(json!({"ev": "after", "pending": client.pending_len(), "sub_ended": sub_ended.load(Ordering::SeqCst), "ws": kind == Kind::Ws && plan.subscribe}));
@@ -738,7 +763,7 @@ pub fn run(a: &Args) -> i32 {
     let rt = tokio::runtime::Builder::new_multi_thread().worker_threads(4).enable_all().build().unwrap();
     let log = Arc::new(Log { seq: AtomicU64::new(0), ev: Mutex::new(vec![]) });
     let mut plans: Vec<Plan> = vec![];
-    let base = |callers: usize| Plan { callers, read: callers, order: (0..callers).collect(), junk: vec![], fault: None, timeout_ms: None, late: vec![], cancel: vec![], batch: false, subscribe: true, ser_fail: false, cancel_queued: false, notifies: 0, collide: false, big_writer: false };
+    let base = |callers: usize| Plan { callers, read: callers, order: (0..callers).collect(), junk: vec![], fault: None, timeout_ms: None, late: vec![], cancel: vec![], batch: false, subscribe: true, wt_big: false, ser_fail: false, cancel_queued: false, notifies: 0, collide: false, big_writer: false };
     if mode == "c04" {
         // every reply order for n callers, with one junk frame rotating through kinds and positions
         let junk_kinds: Vec<&'static str> = if kind == Kind::Ws { vec!["none", "unknown", "dup", "notify"] } else { vec!["none", "unknown", "dup"] };
@@ -784,8 +809,9 @@ pub fn run(a: &Args) -> i32 {
             plans.push(pl);
         }
         // batches
-        for _ in 0..a.usize("batches", 6) {
-            let m = rng.gen_range(2..=16);
+        for bi in 0..a.usize("batches", 6) {
+            // sizes around the batch implementations' internal window sizes too
+            let m = if bi < 3 { [33usize, 40, 65][bi] } else { rng.gen_range(2..=16) };
             let mut pl = base(m);
             pl.order.shuffle(&mut rng);
             pl.batch = true;
@@ -815,6 +841,14 @@ pub fn run(a: &Args) -> i32 {
                 pl.order = vec![];
                 pl.fault = Some((fk, 0));
                 pl.big_writer = true;
+                plans.push(pl);
+            }
+        }
+        if kind == Kind::Sync {
+            for m in [1usize, 3] {
+                let mut pl = base(m);
+                pl.order = vec![];
+                pl.wt_big = true;
                 plans.push(pl);
             }
         }
